@@ -59,6 +59,40 @@ def rule_pipeline(ctx, rid='R1'):
             ta = [e.a for e in p.calls('take_axis')]
             if p.kind == 'raise' and exc_name(p.value) == 'TypeError':
                 continue
+            # --- empty source axis: nothing to take from; the result is built directly, all requested labels missing
+            src_ax = ('sub', ('attr', SELF, 'axes'), axtok)
+            empty_src = [pol for a, pol in p.guards if a == T.mkcmp('==', ('attr', src_ax, 'size'), const(0))]
+            if empty_src == [True] and not lm and not ta:
+                if p.kind == 'raise':
+                    if exc_name(p.value) != 'IndexError':
+                        ctx.violated(rid, fi, 'empty source axis [%s]' % inst, 'with an empty source axis raise_error / method= can only raise IndexError', node=p.node)
+                        ok = False
+                    continue
+                v = p.value
+                g_raise = [pol for a, pol in p.guards if a == RAISE]
+                g_meth = [pol for a, pol in p.guards if a == T.mkcmp('is', METHOD, T.CONST_NONE)]
+                good = v[0] == 'call' and T.call_name(v) == '_constructor' and T.call_receiver(v) == SELF and len(v[2]) == 2 and dict(v[3]).get('**') == ('attr', SELF, 'attrs') \
+                    and g_raise == [False] and g_meth == [True]
+                if good:
+                    vals, newaxes = v[2]
+                    base = strip_mut(vals)
+                    fills = [e.a for e in p.calls('fill') if e.a[2][:1] == (FILL,)]
+                    good = bool(fills) and base[0] == 'call' and T.call_name(base) == '_maybe_cast_type' and base[2][1:2] == (FILL,) and \
+                        newaxes[0] == 'comp' and newaxes[3][0][1] == ('attr', SELF, 'axes') and newaxes[2][0] == 'ifexp'
+                    if good:
+                        el = ('elem', ('attr', SELF, 'axes'), newaxes[3][0][0])
+                        c_, a_then, a_else = newaxes[2][1], newaxes[2][2], newaxes[2][3]
+                        good = c_ in (T.mkcmp('is', el, src_ax), T.mkcmp('==', ('attr', el, 'name'), ('attr', src_ax, 'name'))) and \
+                            a_then[0] == 'call' and T.call_name(a_then) == 'Axis' and a_then[2][:2] == (newvals, ('attr', el, 'name')) and \
+                            dict(a_then[3]).get('**') == ('attr', el, 'attrs') and a_else == ('call', ('attr', el, 'copy'), (), ())
+                if not good:
+                    ctx.violated(rid, fi, 'empty source axis [%s]' % inst, 'with an empty source axis the result must be self._constructor(<array of the new shape filled with fill_value, '
+                                 'widened by _maybe_cast_type>, [Axis(values, name, **attrs) for the reindexed axis, copies of the others], **self.attrs), only when raise_error is '
+                                 'false and method is None', node=p.node)
+                    ok = False
+                else:
+                    ctx.holds(rid, 'reindex_axis [%s]: empty source axis -> all-missing result on the requested labels' % inst)
+                continue
             if len(lm) != 1 or len(ta) != 1:
                 ctx.violated(rid, fi, 'pipeline [%s]' % inst, 'expected one locate_many and one take_axis call per path', node=p.node)
                 ok = False
